@@ -73,6 +73,46 @@ def streaming():
         return i + 1
     flow_generic(inst, "streaming pair x 2", [("streaming IP sent only after the task is done", late), ("fifo.create names another item", nofifo)])
 
+def drop_send(frm, to=None, nth=0):
+    def fn(rows):
+        idx = [k for k, r in enumerate(rows) if r["e"] == "send.begin" and r["from"] == frm and (to is None or r["to"] == to)]
+        i = idx[nth]
+        j = next(k for k in range(i, len(rows)) if rows[k]["e"] == "send.done" and rows[k]["from"] == frm and rows[k]["to"] == rows[i]["to"])
+        del rows[j]; del rows[i]
+        return i + 1
+    return fn
+
+def newkinds():
+    from checks.join import join_inst
+    def dropsub(rows):      # one drained sub-stream member not logged
+        i = next(k for k, r in enumerate(rows) if r["e"] == "ct.sub")
+        del rows[i]; return i + 1
+    def othersub(rows):     # a member that was never sent into the sub-stream
+        i = next(k for k, r in enumerate(rows) if r["e"] == "ct.sub")
+        rows[i]["item"] = "a1.out_a9"; return i + 1
+    def early(rows):        # the joined task is built before the last member was drained
+        t = next(k for k, r in enumerate(rows) if r["e"] == "task.new" and r["proc"] == "cat")
+        i = max(k for k, r in enumerate(rows) if r["e"] == "ct.sub" and k < t)
+        rows.insert(t + 1, rows.pop(i)); return i + 1
+    flow_generic(join_inst(3, -1, ",", "", 2), "sub-stream of three files into a joined in-port",
+                 [("one ct.sub event removed", dropsub), ("ct.sub names a file that is not in the sub-stream", othersub), ("task built before the last member was drained", early)])
+    def catitem(rows):
+        i = next(k for k, r in enumerate(rows) if r["e"] == "send.begin" and r["from"] == "cc.out")
+        rows[i]["item"] = "a.out_1"; return i + 1
+    def catearly(rows):     # the concatenated file is handed on before the last input arrived
+        i = next(k for k, r in enumerate(rows) if r["e"] == "send.begin" and r["from"] == "cc.out")
+        j = next(k for k in range(i, len(rows)) if rows[k]["e"] == "send.done" and rows[k]["from"] == "cc.out")
+        first = next(k for k, r in enumerate(rows) if r["e"] == "send.begin" and r["to"] == "cc.in")
+        moved = [rows[i], rows[j]]
+        for k in (j, i): del rows[k]
+        rows[first:first] = moved
+        return first + 1
+    flow_generic(zoo.ZCAT(n=3), "Concatenator between tasks", [("the component hands on another file than the one it wrote", catitem), ("the file is handed on before the inputs arrived", catearly)])
+    def partname(rows):
+        i = next(k for k, r in enumerate(rows) if r["e"] == "send.begin" and r["from"] == "sp.split_file")
+        rows[i]["item"] = rows[i]["item"][:-1] + "7"; return i + 1
+    flow_generic(zoo.ZSPL(n=2), "FileSplitter behind a source", [("one part not forwarded", drop_send("sp.split_file", nth=1)), ("a part with another index", partname)])
+
 def taskfs():
     from checks.fs import FA
     inst = FA(); exp = fc.expected(inst)
@@ -94,4 +134,4 @@ def taskfs():
     print("  the cleanup step removed from the history:", val(c))
 
 if __name__ == "__main__":
-    build("wfdriver"); flow(); combinator(); streaming(); taskfs()
+    build("wfdriver"); flow(); combinator(); streaming(); newkinds(); taskfs()
